@@ -840,6 +840,11 @@ SIDE_EFFECT_NAMES = {
 # Line/XLine/EnvGen/... carry done_action: derived from the code below, the names above are the part that is not derivable.
 
 
+def _re_once(test_src, v):
+    """`not any(v is i for i in seen)` style identity test on the loop variable"""
+    return bool(re.search(rf'not any\(\(?{re.escape(v)} is \w+ for \w+ in \w+\)?\)', test_src))
+
+
 def rule_dce(ctx):
     ctx.rule('C01.dce', 'classes whose _optimize_graph can reach _perform_dead_code_elimination must be free of '
                         'side effects: not output/width-first units, no done_action parameter, not in the named '
@@ -869,6 +874,27 @@ def rule_dce(ctx):
                            f'{norm(c)} runs once per input slot; an input used in two slots makes the second set.remove raise KeyError '
                            f'(graphs such as `x * x` with x used elsewhere stop compiling)', c, um)
     ctx.require(k >= 2, 'C01.dce', f'only {k} per-input edge updates found')
+    # ... and a call that can replace the input in the graph (its _optimize_graph) must run once per input object, not once per slot:
+    # the second call works on a unit that the first one has just replaced, and installs a second replacement over the first
+    for lp in walk_local(f.node):
+        if not (isinstance(lp, ast.For) and norm(lp.iter) in ('self.inputs', 'self._inputs')):
+            continue
+        v = norm(lp.target)
+        opt = [c for c in U.calls(lp) if U.method_name(c) == '_optimize_graph' and norm(c.func.value) == v]
+        if not opt:
+            continue
+        dedup = False
+        for t in ast.walk(lp):
+            if isinstance(t, ast.If):
+                tsrc = norm(t.test)
+                if any(c is o for o in opt for c in ast.walk(t)) and (
+                        _re_once(tsrc, v) or f'{v} not in ' in tsrc or f'id({v}) not in ' in tsrc):
+                    dedup = True
+        if norm(lp.iter).startswith(('dict.fromkeys(', 'set(')):
+            dedup = True
+        ctx.ob('C01.dce', f'{so.module.name}:SynthObject._perform_dead_code_elimination:{norm(opt[0])}:once-per-input', dedup,
+               f'{norm(opt[0])} runs once per input slot: for a dead unit that reads a rewritable sum in both slots (t * t) the second call '
+               f're-optimises the unit the first call replaced, and live readers of the first replacement drop out of the definition', opt[0], so.module)
     # which _optimize_graph implementations reach DCE
     reach = {}
     for fi in repo.functions.values():
@@ -937,6 +963,9 @@ def run(ctx):
 
 
 MUTANTS = [
+    dict(rule='C01.dce', name='dead code elimination visits a twice-read input twice (fix reverted)', file='sc3/synth/ugen.py',
+         old="                if isinstance(input, UGen) and input._descendants\\\n                and not any(input is i for i in done):\n                    done.append(input)\n",
+         new="                if isinstance(input, UGen) and input._descendants:\n"),
     dict(rule='C01.opt', name='_optimize_sub rewrites n - n (fix reverted)', file='sc3/synth/ugen.py',
          old="    def _optimize_sub(self):\n        a, b = self.inputs\n        if a is b:\n            return\n", new="    def _optimize_sub(self):\n        a, b = self.inputs\n"),
     dict(rule='C01.opt', name='muladd removes the product before knowing whether it can fuse', file='sc3/synth/ugen.py',
